@@ -24,7 +24,11 @@ class CSym:
 
     @staticmethod
     def of(x):
-        return x if isinstance(x, CSym) else CSym(x, 0)
+        if isinstance(x, CSym):
+            return x
+        if isinstance(x, complex):
+            return CSym(Fraction(x.real), Fraction(x.imag))
+        return CSym(x, 0)
 
     def conjugate(self):
         return CSym(self.re, -self.im)
@@ -325,6 +329,144 @@ def replay_sort(chk, es, base, perm, signs, dl, want, what):
         chk.harness_error("C20 evec_sort: '%s' did not reproduce" % what)
 
 
+# -----------------------------------------------------------------------------------------------------------------
+def matdyn_text(nq, np_, field, qval, fval):
+    """An eigenvector file in matdyn's layout: per q-point the banner, a blank line, ' q = ' + 3f12.4, a line of stars, per mode
+    '     freq (%5d) = %14.6f [THz] = %14.6f [cm-1]' followed by one line per atom written with (1x,'(',3(f10.6,1x,f10.6,3x),')'),
+    then a line of stars.  `field(k, l, a, x, part)` supplies the text of one f10.6 field (at most 9 characters: components of
+    normalised vectors are below 10 in magnitude, so the leading column of the field is blank)."""
+    stars = " " + "*" * 74
+    out = []
+    for k in range(nq):
+        out += ["     diagonalizing the dynamical matrix ...", "", " q = " + "".join("%12.4f" % c for c in qval(k)), stars]
+        for l in range(np_):
+            thz, cm = fval(k, l)
+            out.append("     freq (%5d) = %14.6f [THz] = %14.6f [cm-1]" % (l + 1, thz, cm))
+            for a in range(np_ // 3):
+                out.append(" (" + "".join("%10s %10s   " % (field(k, l, a, x, "re"), field(k, l, a, x, "im")) for x in range(3)) + ")")
+        out.append(stars)
+    return "\n".join(out) + "\n"
+
+
+def load_obligations(chk, tier, rng):
+    """evec_load on token files: q coordinates, mode index and the two frequencies are concrete and pairwise distinct (the reader
+    parses them with digit regexes), the 2 x 3N vector components of every (q, mode) are opaque tokens -> symbols."""
+    import importlib
+    import tempfile
+    import builtins
+    el = importlib.import_module("cij.misc.evec_load")
+    chk.encode(el.evec_load, el._read_q_points, el._read_modes, el._read_vecs)
+    shapes = [(1, 3), (2, 6)] if tier == "quick" else [(1, 3), (2, 6), (3, 6), (2, 9), (6, 3)]
+    for nq, np_ in shapes:
+        name = "evec_load[nq=%d, modes=%d]" % (nq, np_)
+        ctx = new_context()
+        toks = {}
+
+        def field(k, l, a, x, part):
+            t = "T%d%d%d%d%s000" % (k, l, a, x, "r" if part == "re" else "i")
+            t = t[:9]
+            toks[t] = ctx.var("v_%d_%d_%d_%d_%s" % (k, l, a, x, part))
+            return t
+
+        def tfloat(sv):
+            if isinstance(sv, str) and sv.strip() in toks:
+                return CSym(toks[sv.strip()], 0)
+            return builtins.float(sv)
+        qval = lambda k: (0.125 * k, -0.25 * k, 0.5 + k)
+        fval = lambda k, l: (1.5 * l - 0.25 + 10 * k, 50.0 * l - 8.0 + 333 * k)
+        text = matdyn_text(nq, np_, field, qval, fval)
+        with tempfile.NamedTemporaryFile("w", suffix=".eig", delete=False) as fp:
+            fp.write(text)
+            fn = fp.name
+        t0 = time.time()
+        fails = []
+        try:
+            from symnum.npproxy import patched
+            with patched((el, {"float": tfloat})):
+                data = X.run_single_path(lambda: el.evec_load(fn, nq, np_), name=name)
+        except Exception as e:
+            fails.append("raises %s: %s" % (type(e).__name__, e))
+            data = None
+        finally:
+            os.unlink(fn)
+        if data is not None:
+            if len(data) != nq:
+                fails.append("%d q-points returned" % len(data))
+            for k, item in enumerate(data[:nq]):
+                qc, modes = item
+                if tuple(round(float(c), 4) for c in qc) != tuple(round(c, 4) for c in qval(k)):
+                    fails.append("q coordinates of q-point %d" % k)
+                if len(modes) != np_:
+                    fails.append("%d modes at q-point %d" % (len(modes), k))
+                    continue
+                for l, ((mid, thz, cm), vec) in enumerate(modes):
+                    if mid != l + 1 or abs(thz - fval(k, l)[0]) > 1e-6 or abs(cm - fval(k, l)[1]) > 1e-6:
+                        fails.append("mode header (%d,%d): %s" % (k, l, (mid, thz, cm)))
+                    if len(vec) != np_:
+                        fails.append("%d vector components at (%d,%d)" % (len(vec), k, l))
+                        continue
+                    for a in range(np_ // 3):
+                        for x in range(3):
+                            c = vec[3 * a + x]
+                            if not isinstance(c, CSym):
+                                fails.append("component (%d,%d,%d,%d) is not built from the file's fields" % (k, l, a, x))
+                                continue
+                            want_re = Sym.of(toks[("T%d%d%d%d%s000" % (k, l, a, x, "r"))[:9]])
+                            want_im = Sym.of(toks[("T%d%d%d%d%s000" % (k, l, a, x, "i"))[:9]])
+                            if Z.prove_equal(c.re, want_re, name=name + ":re")[0] != "unsat" or Z.prove_equal(c.im, want_im, name=name + ":im")[0] != "unsat":
+                                fails.append("component (q=%d, mode=%d, atom=%d, axis=%d) is not the file's (re, im) pair at that place" % (k, l, a, x))
+        chk.obligation(name + ": q coordinates, mode index, THz / cm^-1 (concrete, pairwise distinct) and every complex component (symbolic) at its place",
+                       "unsat" if not fails else "sat", seconds=round(time.time() - t0, 2), kind="reader-structure", detail=fails[:3])
+        if fails:
+            replay_load(chk, el, nq, np_, rng, fails[0])
+
+
+def replay_load(chk, el, nq, np_, rng, what):
+    import tempfile
+    vals = {}
+
+    def field(k, l, a, x, part):
+        v = round(rng.uniform(-0.99, 0.99), 6)
+        vals[(k, l, a, x, part)] = v
+        return "%.6f" % v
+    qval = lambda k: (0.125 * k, -0.25 * k, 0.5 + k)
+    fval = lambda k, l: (1.5 * l - 0.25 + 10 * k, 50.0 * l - 8.0 + 333 * k)
+    with tempfile.NamedTemporaryFile("w", suffix=".eig", delete=False) as fp:
+        fp.write(matdyn_text(nq, np_, field, qval, fval))
+        fn = fp.name
+    try:
+        data = el.evec_load(fn, nq, np_)
+    except Exception as e:
+        chk.violation("evec_load:raises", "evec_load raises %s: %s on a file in matdyn layout (nq=%d, modes=%d)" % (type(e).__name__, e, nq, np_), {})
+        return
+    finally:
+        os.unlink(fn)
+    bad = None
+    if len(data) != nq:
+        bad = "number of q-points"
+    else:
+        for k, (qc, modes) in enumerate(data):
+            if any(abs(a - b) > 1e-4 for a, b in zip(qc, qval(k))) or len(modes) != np_:
+                bad = "q coordinates / mode count of q-point %d" % k
+                break
+            for l, ((mid, thz, cm), vec) in enumerate(modes):
+                if mid != l + 1 or abs(thz - fval(k, l)[0]) > 1e-6 or abs(cm - fval(k, l)[1]) > 1e-6 or len(vec) != np_:
+                    bad = "mode header (%d,%d)" % (k, l)
+                    break
+                for a in range(np_ // 3):
+                    for x in range(3):
+                        c = vec[3 * a + x]
+                        if abs(c.real - vals[(k, l, a, x, "re")]) > 1e-9 or abs(c.imag - vals[(k, l, a, x, "im")]) > 1e-9:
+                            bad = "component (q=%d, mode=%d, atom=%d, axis=%d): %r instead of %r%+rj" % (
+                                k, l, a, x, c, vals[(k, l, a, x, "re")], vals[(k, l, a, x, "im")])
+            if bad:
+                break
+    if bad:
+        chk.violation("evec_load:wrong", "evec_load mis-reads a file in matdyn layout: %s" % bad, dict(nq=nq, modes=np_))
+    else:
+        chk.harness_error("C20 evec_load: '%s' did not reproduce" % what)
+
+
 def main():
     tier = os.environ.get("VERIF_TIER", "quick")
     if len(sys.argv) > 1:
@@ -341,10 +483,15 @@ def main():
     rng = random.Random(seed() + 20)
     disp2eig_obligations(chk, d2e, tier, rng)
     sort_obligations(chk, es, tier, rng)
+    load_obligations(chk, tier, rng)
     chk.bound(disp2eig="M <= 2 rows, N <= 2 atoms", evec_sort="n = 2 (thorough: 3); rational orthonormal bases; all / seeded signed permutations; "
               "perturbation box [-0.05, 0.05]^(n x n); path budget 400 / 3000")
     chk.assume("displacement rows non-zero, masses > 0; evec_sort bases are the listed rational orthonormal matrices (real phases +-1)")
-    chk.out_of_claim("dimensions 4-60; arbitrary (irrational / complex) unitary bases and complex phases for evec_sort; evec_load (file parsing)")
+    chk.bound(evec_load="1-6 q-points, 3-9 modes; vector components symbolic (tokens), q coordinates / mode index / frequencies concrete and distinct")
+    chk.stub("module-global `float` of evec_load.py -> token-aware float (a token becomes a (symbol, 0) complex pair, anything else the real float)")
+    chk.out_of_claim("dimensions 4-60; arbitrary (irrational / complex) unitary bases and complex phases for evec_sort; evec_load: float() "
+                     "parsing itself, fields of full width 10 (|component| >= 10, impossible for normalised vectors), the digit regexes on "
+                     "symbolic text (q coordinates and frequencies are concrete)")
     return chk.finish("disp2eig: z3 proves unit norm and direction for all displacement rows and masses; evec_sort: the executor enumerates every "
                       "feasible outcome of the greedy argmax over the whole perturbation box and each path returns the expected order.")
 
